@@ -358,6 +358,9 @@ def api_checks(ex, kinds, text, names, real_ok):
         ex.check(not twice, "... exactly once")
 
 
+_SEEN = []       # (denotation, expression, graphs, text) of strings met earlier in this worker process
+
+
 def concrete_text(ex, kinds, text, names):
     try:
         tree = RefParser(kinds, names).parse() if kinds else None
@@ -387,6 +390,14 @@ def concrete_text(ex, kinds, text, names):
         ex.check(got == want, "parse(text) denotes the documented set of observed paths and notify flags")
         again = parsing.parse(text)
         ex.check(again == expr and hash(again) == hash(expr), "parsing the same string twice gives equal patterns")
+        # patterns of strings that denote different things are unequal: compare with the strings met earlier in this process
+        for w2, e2, g2, t2 in _SEEN[-40:]:
+            if w2 != want:      # (the converse is only claimed for the equivalences checked above: brackets, whitespace)
+                ex.check(e2 != expr and not (e2 == expr), "strings with different meanings give unequal patterns")
+                ex.check(g2 != graphs, "... and unequal observer graphs (removal by text must not match another registration)")
+        if not any(t2 == text for _w, _e, _g, t2 in _SEEN[-40:]):
+            _SEEN.append((want, expr, graphs, text))
+            del _SEEN[:-60]
         squeezed = " ".join(text.split())
         ex.check(parsing.parse(squeezed) == expr, "other whitespace denotes the same pattern")
         if "STAR" not in kinds:
